@@ -414,3 +414,25 @@ mod tests {
         assert_eq!(wrap(0, 11, 2048 * 5 + 3), 3);
     }
 }
+
+
+/// reference for `Sample::add_amp` / `offset_amp` on an integer format: add in the Signed companion
+/// (None when the mathematical result leaves that format: outside the law's domain)
+pub fn sample_add(f: Fmt, v: i128, a: i128) -> Option<i128> {
+    let sc = f.signed_companion();
+    let sum = conv_int(f, sc, v) + a;
+    if !in_range(sc, sum) {
+        return None;
+    }
+    Some(conv_int(sc, f, sum))
+}
+
+/// reference for `Sample::mul_amp` / `scale_amp` on an integer format: multiply natively in the
+/// Float companion, convert back (None when the product leaves [-1, 1))
+pub fn sample_mul(f: Fmt, v: i128, g: f64) -> Option<i128> {
+    let p: f64 = if f.float_companion() == Fmt::F32 { (int_to_f32(f, v) * (g as f32)) as f64 } else { int_to_f64(f, v) * g };
+    if !(p >= -1.0 && p < 1.0) {
+        return None;
+    }
+    f64_to_int(f, p)
+}
